@@ -36,6 +36,7 @@ def check(repo: Repo, R) -> None:
     from . import c18 as _c18
     R.run(_c18.check, repo, Retag(R, lambda r, k: "C10.6-definition-views-hold-current-members" if r.startswith("C18.1") and k.startswith("hdl21/bundle.py") else None,
                                  "a member replaced by a member of the other kind stays in its per-kind view: the bundle port flattens to ports for leaves the definition no longer has"))
+    R.run(roles_distinguishable, repo, R)
     R.floor("C10.1-portdir-flipped", 1)
     R.floor("C10.2-direction-visibility-table", 1)
     R.floor("C10.3-flip-parity", 4)
@@ -349,3 +350,27 @@ def naming(repo: Repo, R):
     ent = pat.find("BundlePortEntry(module, bundle_inst.name)", fr.node)
     R.check(cache and bool(ent), rule, key_of(fr, "port-scope-recorded"), fr.site, f"the flattened scope of a bundle-valued port is recorded under (module, instance name) for parents to connect to: {cache and bool(ent)}",
             why="parents cannot find (or find another port's) flattened members")
+
+
+
+def roles_distinguishable(repo: Repo, R):
+    """`role == src` / `role == dest` decide the direction of every flattened port: two roles of one bundle must not
+    compare equal.  A Role is a value (compared by its name) — so every role a bundle body declares has a name:
+    the decorator gives an un-named one the name of its attribute."""
+    rule = "C10.2-direction-visibility-table"
+    from . import shared as _sh
+    cr = repo.cls("hdl21/role.py", "Role")
+    by_identity = "__eq__" in cr.methods and any(ast.unparse(r_.value) in ("other is self", "self is other") for r_ in _sh.returns_of(cr.methods["__eq__"].node))
+    fb = repo.func(F_BUNDLE, "bundle")
+    named = False
+    for st in au.walk_no_nested(fb.node):
+        if isinstance(st, ast.Assign) and len(st.targets) == 1 and isinstance(st.targets[0], ast.Subscript) and ast.unparse(st.targets[0].value) == "roles_dict":
+            key, val = ast.unparse(st.targets[0].slice), ast.unparse(st.value)
+            # on the way to the table: `<val>.name = <key>`, for every role that has no name yet
+            for nm in au.walk_no_nested(fb.node):
+                if isinstance(nm, ast.Assign) and ast.unparse(nm.targets[0]) == f"{val}.name" and ast.unparse(nm.value) == key and _sh.precedes(fb.node, nm, st):
+                    extra = [(ast.unparse(t), pol) for t, pol in _sh.path_conditions(fb.node, nm) if (ast.unparse(t), pol) not in {(ast.unparse(t2), p2) for t2, p2 in _sh.path_conditions(fb.node, st)}]
+                    named = all(t_ == f"{val}.name is None" and pol for t_, pol in extra)
+    R.check(by_identity or named, rule, key_of(fb, "roles-named"), fb.site,
+            "roles are compared by identity" if by_identity else f"a Role is compared by its name; every un-named role of a bundle body is named after its attribute before it enters the role table: {named}",
+            why="`Host, Device = 2 * h.Role()` gives one role twice: src and dest both match every instance role, and all flattened ports of the bundle become outputs")
